@@ -118,7 +118,8 @@ impl BranchRule {
             return None;
         }
 
-        let prefix = &self.pattern[..self.pattern.len() - 2];
+        // Keep the slash: "release/*" only covers names under "release/"
+        let prefix = &self.pattern[..self.pattern.len() - 1];
         if !branch_name.starts_with(prefix) || branch_name.len() == prefix.len() {
             return None;
         }
@@ -232,7 +233,8 @@ impl BranchRule {
             !branch.is_empty()
         } else if self.pattern.ends_with("/*") {
             // Regular wildcard pattern: "release/*" matches branches
-            let prefix = &self.pattern[..self.pattern.len() - 2];
+            // Keep the slash: "release/*" must not match "releasex" or "release1"
+            let prefix = &self.pattern[..self.pattern.len() - 1];
             branch.starts_with(prefix) && branch.len() > prefix.len()
         } else {
             // Exact pattern match: "develop" matches only "develop"
